@@ -130,7 +130,10 @@ func GenData(schema *arrow.Schema, rows, pad, salt int, withNulls bool, cm arrow
 				bb.Append(v)
 			case *array.StringBuilder:
 				if f.Name == "pad" {
-					if r == 0 {
+					if r == 0 && pad < 0 {
+						// -pad bytes of incompressible noise (deterministic in salt)
+						bb.Append(noise(-pad, salt))
+					} else if r == 0 {
 						bb.Append(strings.Repeat("x", pad))
 					} else {
 						bb.Append("")
@@ -156,6 +159,20 @@ func GenData(schema *arrow.Schema, rows, pad, salt int, withNulls bool, cm arrow
 		b.Release()
 	}
 	return array.NewRecordBatchWithMetadata(schema, cols, int64(rows), cm)
+}
+
+// noise returns n pseudo-random bytes (xorshift64*, seeded by salt): data a
+// compressor cannot shrink.
+func noise(n, salt int) string {
+	x := uint64(salt)*0x9E3779B97F4A7C15 + 0xD1B54A32D192ED03
+	b := make([]byte, n)
+	for i := range b {
+		x ^= x >> 12
+		x ^= x << 25
+		x ^= x >> 27
+		b[i] = byte((x * 0x2545F4914F6CDD1D) >> 56)
+	}
+	return string(b)
 }
 
 // ZeroRows builds a zero-row batch of schema carrying custom metadata.
